@@ -19,6 +19,53 @@ def short_id(fid):
     return '::'.join(q[-2:]) + '(' + fid[len(contracts.fn_qname(fid)) + 1:].rsplit(')', 1)[0].replace('ipr::', '').replace('impl::', '') + ')'
 
 
+_ROWS = {}
+
+
+def reserved_word_infeasible(F, val):
+    """The atoms of a truth table are not independent when one says `the spelling is a reserved word` (word_if_known(s) holds)
+    and others compare the length of the same spelling with constants: the valuation is feasible only if some row of the
+    reserved-word table has such a length."""
+    import re
+    import words
+    known = [a for a, v in val.items() if v and re.search(r'word_if_known\((.*)\)\s*$', a.strip())]
+    if not known:
+        return False
+    if 'rows' not in _ROWS:
+        _ROWS['rows'] = [r for r in words.reserved_rows(F)[1] if r is not None]
+    for a in known:
+        sp = re.search(r'word_if_known\((.*)\)\s*$', a.strip()).group(1)
+        rels = []
+        for b, v in val.items():
+            m = re.match(r'^\((.*?)(?:\.[^.()]*)?(size|length)\(\) (<=|<|>=|>|==|!=) (\d+|[\w:()]+)\)$', b.strip())
+            if m and m.group(1).startswith(sp.split('.basic_string_view')[0]):
+                k = m.group(4)
+                if not k.isdigit():
+                    k = named_constants(F).get(k)
+                    if k is None:
+                        continue
+                rels.append((m.group(3), int(k), v))
+        if not rels:
+            continue
+        ok = lambda n: all({'<=': n <= k, '<': n < k, '>=': n >= k, '>': n > k, '==': n == k, '!=': n != k}[op] == v for op, k, v in rels)
+        if not any(ok(len(r)) for r in _ROWS['rows']):
+            return True
+    return False
+
+
+def named_constants(F):
+    """value of every named integral constant the library refers to (folded by the compiler at the point of use)"""
+    if 'consts' not in _ROWS:
+        from facts import walk
+        d = {}
+        for g in F.fn.values():
+            for n in walk(g.get('body')):
+                if n.get('k') == 'ref' and n.get('kind') == 'global' and 'cv' in n and n.get('q'):
+                    d[n['q']] = n['cv']
+        _ROWS['consts'] = d
+    return _ROWS['consts']
+
+
 def absorbed_qualification(fid, confirmed, now, val):
     """Lemma for get_qualified (documented normal form, C11): for an operand T that is Qualified and a requested set q contained
     in T.qualifiers(), the node of (q | T.qualifiers(), T.main_variant()) is T itself (T is the one node of its own key, C01).
@@ -83,7 +130,8 @@ def run(ck, F):
             # the tests may have been restructured: compare what is selected for every valuation of the atomic conditions
             sig = lambda p: json.dumps({k: v for k, v in p.items() if k not in ('when', 'stored_params')}, sort_keys=True)
             eq, wit = guards.equivalent([(p.get('when', ''), sig(p)) for p in want], [(p.get('when', ''), sig(p)) for p in paths],
-                                        same=(lambda x, y, val, fid=fid: absorbed_qualification(fid, x, y, val)))
+                                        same=(lambda x, y, val, fid=fid: absorbed_qualification(fid, x, y, val)),
+                                        infeasible=(lambda val: reserved_word_infeasible(F, val)))
             if eq:
                 ck.ok(R_paths, sid, detail='guards restructured, same outcome for every valuation of the atomic conditions')
                 for i, p in enumerate(paths):
